@@ -190,6 +190,8 @@ func loadGeoDB() (db *geoDB) {
 
 // direct looks ip up in the databases themselves.
 func (db *geoDB) direct(ip netip.Addr, city bool) (rec geoRecord) {
+	// An IPv4 address written as an IPv6 one is that IPv4 address.
+	ip = ip.Unmap()
 	var a asnRes
 	_ = db.asn.Lookup(ip.AsSlice(), &a)
 	var c ctryRes
@@ -367,7 +369,21 @@ func runGeoFile(s *kernel.Sim) {
 		// The client's ECS option: absent, declined, or a prefix around the
 		// address of some other client (never of the lengths File uses).
 		var supplied *netip.Prefix
-		switch t.Choose(4, "ecs") {
+		switch t.Choose(5, "ecs") {
+		case 4:
+			// An IPv4 network written in the IPv6 family (::ffff:a.b.c.d).
+			var v4s []netip.Addr
+			for _, c := range clients {
+				if c.Is4() {
+					v4s = append(v4s, c)
+				}
+			}
+			if len(v4s) > 0 {
+				a := kernel.Pick(t, v4s, "mapped-ecs-of")
+				p := netip.PrefixFrom(netip.AddrFrom16(a.As16()), kernel.Pick(t, []int{116, 119, 128}, "mapped-bits")).Masked()
+				supplied = &p
+				s.Probe("ecs-ipv4-mapped")
+			}
 		case 1:
 			z := netutil.ZeroPrefix(netutil.AddrFamilyIPv4)
 			if t.Chance(1, 2, "ecs-zero-v6") {
